@@ -7,6 +7,7 @@
 //	                               some inconsistent) logged as call/ret events for TraceFrag
 //	gate    SCENARIO.json          2 callers under the gate scheduler (hook H7): complete interleaving graph of
 //	                               the real code at critical-section granularity, with P-level events per edge
+//	long    OUT.ndjson SEED N [thorough]  datagrams of 16..40 fragments (hole list outgrows its capacity), re-sends, tail withheld
 //	race    OUT.ndjson SEED H G K  free-running goroutines, call/ret history for linearizability by TLC
 //	timeout OUT.ndjson SEED N      400 ms reassembly timeout, timed arrivals (creeping / one long gap / fast), t0/t1 per call
 //	steps / gatepath IN OUT        re-run one recorded sequence / gate schedule (vcheck --replay)
@@ -442,6 +443,155 @@ func seq(out string, seed int64, n int) {
 	tr.Close()
 }
 
+// longMode: datagrams of MANY 8-byte fragments (16..40), so that the hole list of
+// the reassembler grows past its initial capacity, with the tail withheld until
+// the end.  Two families, all sequential, mode "strict":
+//
+//	skip   systematic: in-order prefix F0..F(j-1), then F(j+2), then F(j), then a re-send around j
+//	       (exact duplicate of F(j) / 16-byte fragment F(j-1)+F(j) / 16-byte fragment F(j)+F(j+1), same
+//	       content), then the rest in order, for every position j in a window, D = 20 and 36 (thorough: more)
+//	rand   seeded: base order in-order / every second fragment first / reversed chunks / random inserts,
+//	       after each arrival sometimes a duplicate or an overlapping re-send of a recently received range
+//
+// Nothing may be handed up before the withheld tail arrives; then exactly the datagram.
+func longMode(out string, seed int64, n int, thorough bool) {
+	tr := vh.NewTrace(out)
+	r := rand.New(rand.NewSource(seed))
+	v := variant{Name: "x8", Scale: 8}
+	one := func(k, b, d int) frag { return frag{K: k, First: b, Last: b, More: b < d-1} }
+	span := func(k, a, b, d int) frag { return frag{K: k, First: a, Last: b, More: b < d-1} }
+	run := func(info map[string]interface{}, fs []frag) {
+		f := fragmentation.NewFragmentation(bigMem, bigMem/2, longTimeout)
+		ev := map[string]interface{}{"ev": "reset", "mode": "strict", "variant": v.Name, "calls": len(fs)}
+		for k, x := range info {
+			ev[k] = x
+		}
+		tr.Log(ev)
+		for _, fr := range fs {
+			ce, first, last, vv := callEv(0, fr, v, 0)
+			tr.Log(ce)
+			res := call(f, keyID(fr.K), first, last, fr.More, vv)
+			tr.Log(retEv(0, res))
+			if res.Panic != "" {
+				return
+			}
+		}
+	}
+	// ---- skip family
+	type win struct{ d, lo, hi int }
+	wins := []win{{20, 8, 15}, {36, 27, 31}}
+	if thorough {
+		wins = []win{{18, 1, 14}, {20, 1, 16}, {24, 1, 20}, {36, 1, 32}, {40, 1, 36}}
+	}
+	for _, w := range wins {
+		for j := w.lo; j <= w.hi; j++ {
+			for kind := 0; kind < 3; kind++ {
+				k := 1 + (j+kind)%3
+				tail := 1 + (j+kind)%3
+				var fs []frag
+				for b := 0; b < j; b++ {
+					fs = append(fs, one(k, b, w.d))
+				}
+				fs = append(fs, one(k, j+2, w.d), one(k, j, w.d))
+				switch kind {
+				case 0:
+					fs = append(fs, one(k, j, w.d))
+				case 1:
+					fs = append(fs, span(k, j-1, j, w.d))
+				case 2:
+					fs = append(fs, span(k, j, j+1, w.d))
+				}
+				fs = append(fs, one(k, j+1, w.d))
+				for b := j + 3; b < w.d; b++ {
+					if b < w.d-tail {
+						fs = append(fs, one(k, b, w.d))
+					}
+				}
+				for b := w.d - tail; b < w.d; b++ { // the withheld tail
+					if b > j+2 {
+						fs = append(fs, one(k, b, w.d))
+					}
+				}
+				run(map[string]interface{}{"family": "skip", "d": w.d, "j": j, "kind": kind}, fs)
+			}
+		}
+	}
+	// ---- seeded family
+	for h := 0; h < n; h++ {
+		d := 16 + r.Intn(25)
+		k := 1 + r.Intn(3)
+		tail := 1 + r.Intn(4)
+		body := d - tail
+		var order []int
+		shape := []string{"inorder", "evens-first", "rev-chunks", "inserts"}[h%4]
+		switch shape {
+		case "inorder":
+			for b := 0; b < body; b++ {
+				order = append(order, b)
+			}
+		case "evens-first":
+			for b := 0; b < body; b += 2 {
+				order = append(order, b)
+			}
+			for b := 1; b < body; b += 2 {
+				order = append(order, b)
+			}
+		case "rev-chunks":
+			c := 2 + r.Intn(4)
+			for a := 0; a < body; a += c {
+				e := a + c
+				if e > body {
+					e = body
+				}
+				for b := e - 1; b >= a; b-- {
+					order = append(order, b)
+				}
+			}
+		case "inserts":
+			for b := 0; b < body; b++ {
+				order = append(order, b)
+			}
+			for x := 0; x < body/3; x++ { // move some fragments a few places later
+				i := r.Intn(body - 1)
+				j := i + 1 + r.Intn(3)
+				if j >= body {
+					j = body - 1
+				}
+				order[i], order[j] = order[j], order[i]
+			}
+		}
+		var fs []frag
+		got := map[int]bool{}
+		var recent []int
+		for _, b := range order {
+			fs = append(fs, one(k, b, d))
+			got[b] = true
+			recent = append(recent, b)
+			if len(recent) > 4 {
+				recent = recent[1:]
+			}
+			if r.Intn(4) == 0 { // re-send around a recently received block
+				c := recent[r.Intn(len(recent))]
+				switch x := r.Intn(3); {
+				case x == 0:
+					fs = append(fs, one(k, c, d))
+				case x == 1 && c > 0 && got[c-1]:
+					fs = append(fs, span(k, c-1, c, d))
+				case c+1 < body && got[c+1]:
+					fs = append(fs, span(k, c, c+1, d))
+				default:
+					fs = append(fs, one(k, c, d))
+				}
+			}
+		}
+		for b := body; b < d; b++ {
+			fs = append(fs, one(k, b, d))
+		}
+		run(map[string]interface{}{"family": "rand", "d": d, "shape": shape}, fs)
+	}
+	tr.Close()
+}
+
 // race: G goroutines deliver the fragments of several datagrams concurrently.
 func race(out string, seed int64, hists, G, K int) {
 	fragmentation.VerifSetHook(nil)
@@ -800,6 +950,8 @@ func main() {
 		race(os.Args[2], int64(atoi(os.Args[3])), atoi(os.Args[4]), atoi(os.Args[5]), atoi(os.Args[6]))
 	case "timeout":
 		timeoutMode(os.Args[2], int64(atoi(os.Args[3])), atoi(os.Args[4]))
+	case "long":
+		longMode(os.Args[2], int64(atoi(os.Args[3])), atoi(os.Args[4]), len(os.Args) > 5 && os.Args[5] == "thorough")
 	case "steps":
 		stepsMode(os.Args[2], os.Args[3])
 	case "gatepath":
